@@ -132,9 +132,8 @@ func runC11(c *Ctx, w *World, r *Report) {
 			} else {
 				sh, m = b, a
 			}
-			tab, ti, ok := asElemLoad(m)
-			if !ok || !isGlobal(tab, "bitmap", "Mask") || !fa.Lin(ti).Eq(fa.Lin(fn.Params[2]).Sub(fa.Lin(fn.Params[1]))) {
-				bad = "bits are not masked with bitmap.Mask[tobit-frombit]"
+			if ms, ok := fa.MaskOf(m); !ok || ms.Kind != "low" || !ms.N.Eq(fa.Lin(fn.Params[2]).Sub(fa.Lin(fn.Params[1]))) {
+				bad = "bits are not masked with the low tobit-frombit bits (bitmap.Mask[tobit-frombit])"
 			}
 			_, amt, ok := asBin(sh, token.SHR)
 			if !ok {
